@@ -639,6 +639,22 @@ func runC07(r *Run) {
 					continue
 				}
 				onReceiver := false
+				// a plain helper that is handed the context by one of its methods (`rebindCtxViews(c)` called from Reset)
+				if fr.Addr != nil {
+					for i, prm := range f.Params {
+						if stripValue(fr.Addr.X) != ssa.Value(prm) || (i == 0 && f.Signature.Recv() != nil) {
+							continue
+						}
+						for _, call := range staticCallersOf(f) {
+							caller := call.Parent()
+							if caller != nil && caller.Signature.Recv() != nil && len(caller.Params) > 0 && i < len(call.Call.Args) && stripValue(call.Call.Args[i]) == ssa.Value(caller.Params[0]) {
+								if pt, ok := caller.Params[0].Type().(*types.Pointer); ok && types.Identical(pt.Elem(), ctxObj.Type()) {
+									onReceiver = true
+								}
+							}
+						}
+					}
+				}
 				if f.Signature.Recv() != nil && len(f.Params) > 0 && fr.Addr != nil {
 					if base := stripValue(fr.Addr.X); base == ssa.Value(f.Params[0]) {
 						onReceiver = true
